@@ -12,15 +12,22 @@ EXC_COQ = {'KeyError': 'KeyError', 'IndexError': 'IndexError', 'TypeError': 'Typ
 
 # ------------------------------------------------------------------ clock
 class Clock(object):
-    """stands in for the `time` module inside tlslite.sessioncache"""
+    """stands in for the `time` module inside tlslite.sessioncache.  `who` (optional) names the
+    calling thread; the value every thread read last is remembered (each cache call reads once)."""
 
     def __init__(self, now=0, tick=False):
         self.now = now
         self.tick = tick
+        self.who = None
+        self.last_read = {}
+
+    def advance(self, d):
+        self.now += d
 
     def time(self):
         if self.tick:
             self.now += 1
+        self.last_read[self.who() if self.who is not None else None] = self.now
         return self.now
 
 
@@ -244,8 +251,11 @@ def order_from_lock(lock_order, seqs):
 
 # ------------------------------------------------------------------ concurrent: SessionCache
 def run_cache_schedule(scn, preempts, opcode=False):
-    """scn: dict(n, max_age, pre=[op...], threads=[[op...]...]).  The clock advances by one on
-    every time.time() call, so the order of clock reads is the order of critical sections."""
+    """scn: dict(n, max_age, pre=[op...], threads=[[op...]...], dt=1, switch_jump=0).
+    op = ('get',id) | ('put',id,s) | ('sleep',d).  The fake clock advances by 1 on every read, by
+    `dt` at every pre-emption point (traced line / bytecode) and by `switch_jump` at every context
+    switch, so time passes INSIDE calls and while a thread is descheduled; ('sleep', d) lets d pass.
+    The clock value every call read is recorded."""
     from tlslite.sessioncache import SessionCache
     sessions = Sessions()
     with clock_installed(Clock(tick=True)) as clk:
@@ -253,35 +263,51 @@ def run_cache_schedule(scn, preempts, opcode=False):
         cache.lock = CoopLock()
         pre_hist = []
         for op in scn['pre']:
-            t0 = clk.now
+            if op[0] == 'sleep':
+                clk.advance(op[1])
+                continue
             do_cache_op(cache, sessions, op)
-            pre_hist.append((clk.now if clk.now != t0 else t0, op))
+            pre_hist.append((clk.last_read.get(None, clk.now), op))
         results = [[] for _ in scn['threads']]
+        times = [[] for _ in scn['threads']]
         sched = Sched(len(scn['threads']), preempts, traced=('tlslite/sessioncache.py',), opcode=opcode)
+        sched.on_point = lambda: clk.advance(scn.get('dt', 1))
+        sched.on_switch = lambda: clk.advance(scn.get('switch_jump', 0))
+        clk.who = sched.tid
         cache.lock.sched = sched
 
         def body(i):
             def f():
                 for op in scn['threads'][i]:
+                    if op[0] == 'sleep':
+                        clk.advance(op[1])
+                        continue
+                    clk.last_read.pop(i, None)
                     results[i].append(do_cache_op(cache, sessions, op))
+                    times[i].append(clk.last_read.get(i))
             return f
         sched.run([body(i) for i in range(len(scn['threads']))])
         cache.lock.sched = None
-        return {'results': results, 'state': cache_state(cache), 'sched': sched, 'pre_hist': pre_hist,
-                'clock': clk.now, 'lock_held': cache.lock.held}
+        clk.who = None
+        return {'results': results, 'times': times, 'state': cache_state(cache), 'sched': sched,
+                'pre_hist': pre_hist, 'clock': clk.now, 'lock_held': cache.lock.held}
 
 
-def merged_history(scn, pre_hist, order):
-    hist = list(pre_hist)
-    t = pre_hist[-1][0] if pre_hist else 0
-    idx = [0] * len(scn['threads'])
+def cache_ops(scn):
+    """the cache calls of every thread (sleeps removed)"""
+    return [[op for op in th if op[0] != 'sleep'] for th in scn['threads']]
+
+
+def merged_history(scn, run, order):
+    """the history of an order of the calls, every call at the clock value it actually read"""
+    ops = cache_ops(scn)
+    hist = list(run['pre_hist'])
+    idx = [0] * len(ops)
     who = []
     for i in order:
-        op = scn['threads'][i][idx[i]]
+        t = run['times'][i][idx[i]]
+        hist.append((t if t is not None else (hist[-1][0] if hist else 0), ops[i][idx[i]]))
         idx[i] += 1
-        if op[0] in ('get', 'put', 'purge'):
-            t += 1
-        hist.append((t, op))
         who.append(i)
     return hist, who
 
@@ -303,37 +329,56 @@ def window_consistent(n, state):
 
 
 def check_cache_run(scn, run):
-    """None or (kind, text).  Property: no internal error, no deadlock, and the per-thread
-    results are those the sequential specification gives for SOME order of the whole calls."""
+    """None or (kind, text).  Property: no internal error, no deadlock, never an entry older than
+    maxAge (by the clock values the store and the lookup actually read), and the per-thread results
+    are those the sequential specification gives for SOME order of the whole calls, every call taken
+    at the clock value it read."""
     sched = run['sched']
+    ops = cache_ops(scn)
     if sched.failure or sched.deadlock or any(e is not None for e in sched.errors) or run['lock_held']:
         return ('deadlock-or-crash', 'failure=%r deadlock=%r errors=%r lock_held=%r' % (
             sched.failure, sched.deadlock, [repr(e) for e in sched.errors], run['lock_held']))
     for i, rs in enumerate(run['results']):
-        for op, r in zip(scn['threads'][i], rs):
+        for op, r in zip(ops[i], rs):
             if r[0] == 'exc' and not (op[0] == 'get' and r[1] == 'KeyError'):
                 return ('internal-error', 'thread %d: %s raised %s' % (i, op[0], r[1]))
     n = scn['n']
     if len(run['state'][0]) > max(n, 0):
         return ('size-bound', 'cache holds %d entries, maxEntries=%d' % (len(run['state'][0]), n))
+    # never older than maxAge: clock value read by the store of the returned session vs by the lookup
+    stored_at = {}
+    for t, op in run['pre_hist']:
+        if op[0] == 'put':
+            stored_at[op[2]] = t
+    for i in range(len(ops)):
+        for op, t in zip(ops[i], run['times'][i]):
+            if op[0] == 'put':
+                stored_at[op[2]] = t
+    for i in range(len(ops)):
+        for op, r, t in zip(ops[i], run['results'][i], run['times'][i]):
+            if op[0] == 'get' and r[0] == 'ret' and r[1] in stored_at and t is not None \
+                    and stored_at[r[1]] is not None and t - stored_at[r[1]] > scn['max_age']:
+                return ('expired-entry-returned',
+                        'thread %d: get(%d) at clock %s returned session %d stored at clock %s: age %s > maxAge %s'
+                        % (i, op[1], t, r[1], stored_at[r[1]], t - stored_at[r[1]], scn['max_age']))
     cands = []
-    lo = order_from_lock(sched.lock_order, scn['threads'])
+    lo = order_from_lock(sched.lock_order, ops)
     if lo is not None:
         cands.append(lo)
-    cands = itertools.chain(cands, merges(scn['threads']))
+    cands = itertools.chain(cands, merges(ops))
     npre = len(run['pre_hist'])
     for order in cands:
-        hist, who = merged_history(scn, run['pre_hist'], order)
+        hist, who = merged_history(scn, run, order)
         want = spec_outcomes(n, scn['max_age'], hist)[npre:]
-        per = [[] for _ in scn['threads']]
+        per = [[] for _ in ops]
         for i, w in zip(who, want):
             per[i].append(w)
         if per == run['results']:
             if not window_consistent(n, run['state']):
                 return ('state-corrupt', 'final dict/list/indices inconsistent: %r' % (run['state'],))
             return None
-    return ('not-serializable', 'results %r equal the specification for no sequential order of the calls'
-            % (run['results'],))
+    return ('not-serializable', 'results %r (clock values read: %r) equal the specification for no sequential '
+            'order of the calls' % (run['results'], run['times']))
 
 
 # ------------------------------------------------------------------ concurrent: RSA
